@@ -40,8 +40,8 @@ impl Property for C14 {
     }
     fn cases(&self, tier: Tier) -> u64 {
         match tier {
-            Tier::Quick => 40_000,
-            Tier::Thorough => 1_000_000,
+            Tier::Quick => 400000,
+            Tier::Thorough => 5000000,
         }
     }
     fn decode(&mut self, tape: &TapeVal) -> Case {
